@@ -37,9 +37,11 @@ def main():
             print("worker %d: cannot create worktree: %s" % (k, r.stderr)); return
         sh("rsync -a --exclude .build --exclude replays --exclude .git %s/ %s/" % (VERIF, ver))
         gm = os.path.join(ver, "harness", "go.mod")
-        open(gm, "w").write(open(gm).read().replace("=> /repo", "=> " + repo))
+        txt = open(gm).read().replace("=> /repo", "=> " + repo)
+        open(gm, "w").write(txt)
         chk = os.path.join(ver, "check")
-        open(chk, "w").write(open(chk).read().replace('"VERIF_REPO": "/repo"', '"VERIF_REPO": "%s"' % repo))
+        txt = open(chk).read().replace('"VERIF_REPO": "/repo"', '"VERIF_REPO": "%s"' % repo)
+        open(chk, "w").write(txt)
         env = dict(os.environ, VERIF_EVIDENCE_OUT=os.path.join(root, "ev%d" % k), VERIF_REPLAYS_OUT=os.path.join(root, "rp%d" % k))
         while True:
             try:
